@@ -25,6 +25,7 @@ from sim.hidlink import HidLink, FakeHidDevice        # noqa: E402
 from sim.devices.ledger import LedgerDevice           # noqa: E402
 
 _CURRENT = None
+from sim.kernel import check_foreign as _check_foreign   # noqa: E402
 
 
 class SimCrash(BaseException):
@@ -33,12 +34,15 @@ class SimCrash(BaseException):
 
 class _HidDispatch:
     def enumerate(self, vid=0, pid=0):
+        _check_foreign()
         return _CURRENT.link.enumerate(vid, pid)
 
     def device(self):
+        _check_foreign()
         return FakeHidDevice(_CURRENT.link)
 
     def hidapi_exit(self):
+        _check_foreign()
         _CURRENT.link.tlog("hidapi_exit")
 
 
@@ -50,6 +54,7 @@ class _TimeDispatch:
         return _CURRENT.clock.monotonic()
 
     def sleep(self, d):
+        _check_foreign()
         w = _CURRENT
         if w.crash_check:
             w.crash_check()
